@@ -17,7 +17,8 @@ LEVEL = 'fault_enumeration'
 RULE = ('one case = (program, assignment of 1-4 generated plug classes to phases and '
         'test_start, fault map over the plug classes: constructor raises / tearDown raises / '
         'tearDown hangs killably / tearDown hangs unkillably with plug_teardown_timeout_s = '
-        '50 ms, settings); for directed programs every single-plug fault and every pair of '
+        '50 ms / tearDown yields 50 times (time-out 400 ms when combined with a hang); the same '
+        'plug class may be requested under two argument names; settings); for directed programs every single-plug fault and every pair of '
         'faults is enumerated; seeded random programs x assignments x fault maps extend it; '
         'distinct = distinct case; non-trivial = at least one plug was constructed or a '
         'constructor fault fired')
@@ -28,7 +29,7 @@ ASSUMPTIONS = [
 ]
 REQUIRED_COUNTERS = ['runs', 'plugs_constructed', 'teardowns_judged',
                      'ctor_faults_fired', 'teardown_faults_fired',
-                     'phase_injections_judged']
+                     'phase_injections_judged', 'slow_teardowns_judged']
 EXHAUSTIVE = {'quick': False, 'thorough': False}
 PLAN = {
     'quick': {'workers': 16, 'budget_s': 45, 'sampled_per_worker': 260,
@@ -36,7 +37,7 @@ PLAN = {
     'thorough': {'workers': 16, 'budget_s': 600, 'sampled_per_worker': 8000,
                  'wall_limit_s': 7200},
 }
-FAULTS = ['ctor_raise', 'td_raise', 'td_hang', 'td_hang_unkillable']
+FAULTS = ['ctor_raise', 'td_raise', 'td_hang', 'td_hang_unkillable', 'td_slow']
 
 
 def setup():
@@ -62,12 +63,17 @@ BASES = [
       _p('w', plugs=[0], run_if=False),
       ['B', 'b', 'ANY', ['D1'], [_p('x', plugs=[2])]]], {}),
     ([_p('a', plugs=[0, 1, 2, 3])], {'tdiag': 'raise'}),
+    # the same plug class under two argument names (in test_start and in a phase)
+    ([_p('a', plugs=[0, '0b', 1]), _p('b', plugs=['1b', 1])],
+     {'start': _p('start', plugs=[0, '0b'])}),
+    ([_p('a', plugs=[1, '1x'])], {'start': _p('start', plugs=['0b', 0, 1])}),
 ]
 
 
 def enumerated(tier):
   for prog, cfg in BASES:
-    used = sorted({i for n, _ in pm.walk(prog + ([cfg['start']] if cfg.get('start') else []))
+    used = sorted({pm.plug_index(i) for n, _ in pm.walk(
+        prog + ([cfg['start']] if cfg.get('start') else []))
                    if n[0] == 'P' for i in n[2].get('plugs') or []})
     yield {'prog': prog, 'cfg': cfg, 'faults': {}}
     for i in used:
@@ -76,7 +82,8 @@ def enumerated(tier):
     for i, j in itertools.permutations(used, 2):
       for f, g in (('td_raise', 'td_raise'), ('td_hang', 'td_raise'),
                    ('ctor_raise', 'td_raise'), ('ctor_raise', 'ctor_raise'),
-                   ('td_hang', 'td_hang')):
+                   ('td_hang', 'td_hang'), ('td_hang', 'td_slow'),
+                   ('td_hang_unkillable', 'td_slow'), ('td_raise', 'td_slow')):
         yield {'prog': prog, 'cfg': cfg, 'faults': {str(i): f, str(j): g}}
 
 
@@ -93,6 +100,8 @@ def sampled(tier, rng):
       if rng.random() < .55:
         n[2]['plugs'] = sorted(rng.sample(range(nplugs),
                                           rng.randint(1, min(2, nplugs))))
+        if rng.random() < .2:     # same class under a second argument name
+          n[2]['plugs'].append('%db' % n[2]['plugs'][0])
     faults = {}
     for i in range(nplugs):
       r = rng.random()
@@ -104,6 +113,8 @@ def sampled(tier, rng):
         faults[str(i)] = 'td_hang'
       elif r < .5:
         faults[str(i)] = 'td_hang_unkillable'
+      elif r < .65:
+        faults[str(i)] = 'td_slow'
     yield {'prog': prog, 'cfg': cfg, 'faults': faults}
 
 
@@ -113,6 +124,8 @@ def run_case(case):
   cfg['plugs'] = faults
   if any(f.startswith('td_hang') for f in faults.values()):
     cfg['plug_td_timeout'] = 0.05
+    if 'td_slow' in faults.values():
+      cfg['plug_td_timeout'] = 0.4
   real = pm.run_real(prog, cfg, keep=True)
   ev = real['_events']
   viol = []
@@ -148,7 +161,7 @@ def run_case(case):
   for e in ev:
     if e[2] == 'start' and e[5]:
       for arg, iid in e[5].items():
-        idx = int(arg[4:])
+        idx = pm.plug_index(arg[4:])
         c['phase_injections_judged'] += 1
         if instance.get(idx) != iid:
           bad('phase-got-a-different-plug-instance', phase=e[3], plug=idx)
@@ -156,7 +169,7 @@ def run_case(case):
       prog + ([start] if start else [])) if n[0] == 'P'}
   for e in ev:
     if e[2] == 'start':
-      want = {'plug%d' % i for i in decl.get(e[3], [])}
+      want = {'plug%s' % i for i in decl.get(e[3], [])}
       got = set((e[5] or {}).keys())
       if want != got:
         bad('phase-plug-arguments-differ', phase=e[3], want=sorted(want),
@@ -176,6 +189,19 @@ def run_case(case):
   for iid in td_count:
     if iid not in instance.values():
       bad('teardown-of-unknown-instance', iid=iid)
+  # 3b. a tearDown with a little work to do completes unless it used up its
+  # own plug_teardown_timeout_s (decided on its own measured run time)
+  done = {e[4] for e in ev if e[2] == 'plug_td_done'}
+  for e in ev:
+    if e[2] == 'plug_td_killed':
+      c['slow_teardowns_judged'] = c.get('slow_teardowns_judged', 0) + 1
+      limit = cfg.get('plug_td_timeout')
+      if limit is None or e[5] < limit / 2.0:
+        bad('teardown-abandoned-before-its-timeout', plug=e[3],
+            ran_for_s=round(e[5], 4), timeout_s=limit)
+  for idx, iid in instance.items():
+    if faults.get(str(idx)) == 'td_slow' and td_count.get(iid):
+      c['slow_teardowns_judged'] = c.get('slow_teardowns_judged', 0) + 1
   # 4. tearDown after the last phase / diagnoser event, before the callbacks
   if tds:
     first_td = min(e[0] for e in tds)
